@@ -14,13 +14,29 @@ func VerifC11AuthorizerLimits() {
 	vForbidPanic("C11")
 	vForbidStranded("C11")
 	vTimerMode(0)
-	// a token whose authority holds nAuth distinct facts and whose block holds one more
+	// a token whose authority holds nAuth distinct facts and whose block holds nBlk more
 	nAuth := 1 + vChoose("authority-facts", 3)
 	var authority gBlock
 	for i := 0; i < nAuth; i++ {
 		authority.facts = append(authority.facts, gAtom{name: "p", c: int64(i)})
 	}
-	blocks := []gBlock{{facts: []gAtom{{name: "q", c: 100}}}}
+	// the block adds 1..3 facts: with two or more there are limits that the authority world respects
+	// and only the block world exceeds
+	nBlk := 1 + vChoose("block-facts", 3)
+	var blk gBlock
+	for i := 0; i < nBlk; i++ {
+		blk.facts = append(blk.facts, gAtom{name: "q", c: int64(100 + i)})
+	}
+	// optionally the block carries a chain of two rules: its world then needs three iterations where the
+	// authority world needs one, and ends with three times the block's facts
+	chain := vChoose("block-rules", 2) == 1
+	if chain {
+		blk.rules = []gRule{
+			{head: gAtom{name: "q1", isVar: true}, body: []gAtom{{name: "q", isVar: true}}},
+			{head: gAtom{name: "q2", isVar: true}, body: []gAtom{{name: "q1", isVar: true}}},
+		}
+	}
+	blocks := []gBlock{blk}
 	g := gBuildToken(authority, blocks)
 	maxFacts := vInt("maxFacts")
 	vAssume(vAnd(maxFacts >= 0, maxFacts <= 50))
@@ -60,10 +76,14 @@ func VerifC11AuthorizerLimits() {
 	}
 	aerr := a.Authorize()
 	vCover("authorized")
-	// the authority world ends with nAuth facts, the block world with nAuth+1, no rules: one iteration each
+	// the authority world ends with nAuth facts, the block world with nAuth+nBlk, no rules: one iteration each
 	authorityTooBig := nAuth >= maxFacts // the implementation refuses at >= (stricter than >: accepted)
-	strictlyTooBig := nAuth+1 > maxFacts
+	strictlyTooBig := nAuth+nBlk > maxFacts
 	noIterations := maxIter < 1
+	if chain {
+		strictlyTooBig = nAuth+3*nBlk > maxFacts
+		noIterations = maxIter < 3
+	}
 	vAssert(vImplies(strictlyTooBig, aerr != nil), "C11.fact-limit-honoured")
 	vAssert(vImplies(noIterations, aerr != nil), "C11.iteration-limit-honoured")
 	if aerr != nil {
